@@ -26,7 +26,7 @@ CLAIMED["C15"] = dict(
 
 CLAIMED["C01"] = dict(
     category="model_checking", engine="vsched",
-    text="The real check engine (instrumented by tools/vinstr, run under the cooperative scheduler) is compared with an independent reference semantics (h/refsem: least fixpoint stratified over the SCCs of the atom dependency graph) on (A) every configuration with <=2 leaves over includes/traverse(recursive)/permits x every query-connected tuple set of <=3 tuples over 2 objects incl. subject sets, empty relations, duplicates x 3 queries x row orders, default mode, and typed OPL-rendered configurations in strict mode; (B) the same engine over the real SQL persister/traverser with row order forced through shard_id, cross-checked call by call count and answer against the in-memory store used for exploration; (C) ALL schedules up to deviation bound 1 (thorough 2) of ~700 scenarios that force the visited-set, cycle and short-circuit mechanisms - every outcome must equal the reference, so the answer is schedule independent within the bound. Cases the engine itself reports as cut by depth/width are excluded (C02). Added families: wide nodes on the SQL traverser (N subject sets around one and two traverser pages of 1000 rows, the subject a member of the K-th for every K around the seams; thorough every K); operator chains as OPL text (every || / && tree over 3-4 relations with none or one negated leaf in minimal TypeScript parentheses x all assignments of direct tuples, end to end through the parser); input enumeration of traverse configurations also with listings paged one row at a time. Two-namespace family (the same object names and relation in two namespaces, <= 4 tuples, both row orders); the SQL conformance part also asks with subject-set subjects, with and without relation.",
+    text="The real check engine (instrumented by tools/vinstr, run under the cooperative scheduler) is compared with an independent reference semantics (h/refsem: least fixpoint stratified over the SCCs of the atom dependency graph) on (A) every configuration with <=2 leaves over includes/traverse(recursive)/permits x every query-connected tuple set of <=3 tuples over 2 objects incl. subject sets, empty relations, duplicates x 3 queries x row orders, default mode, and typed OPL-rendered configurations in strict mode; (B) the same engine over the real SQL persister/traverser with row order forced through shard_id, cross-checked call by call count and answer against the in-memory store used for exploration; (C) ALL schedules up to deviation bound 1 (thorough 2) of ~700 scenarios that force the visited-set, cycle and short-circuit mechanisms - every outcome must equal the reference, so the answer is schedule independent within the bound. Cases the engine itself reports as cut by depth/width are excluded (C02). Added families: wide nodes on the SQL traverser (N subject sets around one and two traverser pages of 1000 rows, the subject a member of the K-th for every K around the seams; thorough every K); operator chains as OPL text (every || / && tree over 3-4 relations with none or one negated leaf in minimal TypeScript parentheses x all assignments of direct tuples, end to end through the parser); input enumeration of traverse configurations also with listings paged one row at a time. Two-namespace family (the same object names and relation in two namespaces, <= 4 tuples, both row orders); the SQL conformance part also asks with subject-set subjects, with and without relation. Candidates that the counterfactual attributes to the recorded finding KF-C01-1 are also replayed on the engine sources of known_findings.json's reference_commit: one that satisfies the oracle there is reported as a new violation.",
     note="Reference semantics written from the docs (strict mode from config.schema.json); bounds: <=2 leaves, <=3 tuples (thorough: 5 leaf kinds, all row permutations, deeper), deviation bound; violations that disappear under the counterfactual build with path-local visited sets are attributed to recorded finding KF-C01-1.",
     technique="bounded-exhaustive input enumeration + deviation-bounded stateless schedule exploration of the instrumented implementation against a reference model",
     design_ref="§4 C01")
@@ -71,14 +71,14 @@ CLAIMED["C17"] = dict(
 
 CLAIMED["C14"] = dict(
     category="model_checking", engine="vsched",
-    text="Schedule exploration of request PAIRS on one instrumented engine over a fixed store: every multiset of 2 requests from {check x3 (shared sub-graph, cyclic data), batch check, expand} under two configurations (a && !b, b || traverse), all interleavings up to deviation bound 1 (thorough 2) with storage calls as scheduling points; each request's answer must lie in the outcome set the same request produces alone over all schedules to the same bound. Complement: the same kinds of requests free-running under the Go race detector against the sqlite registry and its REST/gRPC servers, concurrent first requests on fresh registries and mixed with writes; every distinct race report is a violation keyed by the top keto frames of both accesses. Built as three passes: (1) alone sets, every exploration split across all workers; (2) pairs incl. a depth-variant of the same tuple through CheckRelationTuple and CheckIsMember, cancel phases under both canonical select picks, a pagination phase through one shared ManagerWrapper; (3) API pass: 16 read requests (list pages with different tokens / sizes, checks with different depths, batch, expand; REST and gRPC) of one network, every ordered pair, the first paused inside the SQL driver before each of its statements. The API pass includes lists over 150 names and the repeat oracle (the same request again, nothing else running, must answer the same); the race pass also runs two tenants with their own configuration sources. Thorough = the bound-1 passes (complete alone sets) followed by bound-2 passes as far as the cap allows. Pre-cancelled twin phase: a request issued with an already cancelled context while an identical one is in flight must fail with the cancellation.",
+    text="Schedule exploration of request PAIRS on one instrumented engine over a fixed store: every multiset of 2 requests from {check x3 (shared sub-graph, cyclic data), batch check, expand} under two configurations (a && !b, b || traverse), all interleavings up to deviation bound 1 (thorough 2) with storage calls as scheduling points; each request's answer must lie in the outcome set the same request produces alone over all schedules to the same bound. Complement: the same kinds of requests free-running under the Go race detector against the sqlite registry and its REST/gRPC servers, concurrent first requests on fresh registries and mixed with writes; every distinct race report is a violation keyed by the top keto frames of both accesses. Built as three passes: (1) alone sets, every exploration split across all workers; (2) pairs incl. a depth-variant of the same tuple through CheckRelationTuple and CheckIsMember, cancel phases under both canonical select picks, a pagination phase through one shared ManagerWrapper; (3) API pass: 16 read requests (list pages with different tokens / sizes, checks with different depths, batch, expand; REST and gRPC) of one network, every ordered pair, the first paused inside the SQL driver before each of its statements. The API pass includes lists over 150 names and the repeat oracle (the same request again, nothing else running, must answer the same); the race pass also runs two tenants with their own configuration sources. Thorough = the bound-1 passes (complete alone sets) followed by bound-2 passes as far as the cap allows. Pre-cancelled twin phase: a request issued with an already cancelled context while an identical one is in flight must fail with the cancellation. A request that goes through no rewrite (expand, incl. a diamond reachable through two siblings) must have exactly one answer alone over all schedules; the race pass includes concurrent multi-page listings at the default page size.",
     note="The -race pass is not exhaustive (stated in evidence); cooperative scheduling cannot see data races; bounds: 2 concurrent requests, deviation bound.",
     technique="deviation-bounded stateless schedule exploration of concurrent requests on the instrumented implementation (differential against solo runs) + free-running race-detector pass",
     design_ref="§4 C14")
 
 CLAIMED["C19"] = dict(
     category="model_checking", engine="vsched",
-    text="keto's real oplConfigWatcher, NamespaceWatcher (JSON/YAML/TOML) and event loop, instrumented by tools/vinstr (profile config: sync/RWMutex with Go's writer preference, select, channels) run under the cooperative scheduler. A dispatcher thread feeds EVERY history of length <=3 (thorough 4) over {change f1 to V1/V2/syntactically bad/type-incorrect, remove f1, change f2 to W1/bad}; a reader thread takes two samples (Namespaces + GetNamespaceByName) and, for OPL, a reload thread calls ShouldReload; ALL interleavings up to deviation bound 2 are explored. Oracle per sample and per file: the visible namespaces of the file are exactly one valid version of it dispatched so far (never a subset, a mix or an invalid one); at quiescence every file shows its last valid version; no deadlock. Families over the KINDS of invalid content per format (cut off, left-over bytes, wrong value / field type, duplicate key, unterminated comment / string; histories <= 3, bound 1); a lookup-vs-set scenario on the real config.Config object (bound 2): the last namespaces value set is what is served afterwards. The namespace content is observed (same class names, different relations); http OPL locations that differ in path / query (process-wide document cache).",
+    text="keto's real oplConfigWatcher, NamespaceWatcher (JSON/YAML/TOML) and event loop, instrumented by tools/vinstr (profile config: sync/RWMutex with Go's writer preference, select, channels) run under the cooperative scheduler. A dispatcher thread feeds EVERY history of length <=3 (thorough 4) over {change f1 to V1/V2/syntactically bad/type-incorrect, remove f1, change f2 to W1/bad}; a reader thread takes two samples (Namespaces + GetNamespaceByName) and, for OPL, a reload thread calls ShouldReload; ALL interleavings up to deviation bound 2 are explored. Oracle per sample and per file: the visible namespaces of the file are exactly one valid version of it dispatched so far (never a subset, a mix or an invalid one); at quiescence every file shows its last valid version; no deadlock. Families over the KINDS of invalid content per format (cut off, left-over bytes, wrong value / field type, duplicate key, unterminated comment / string; histories <= 3, bound 1); a lookup-vs-set scenario on the real config.Config object (bound 2): the last namespaces value set is what is served afterwards. The namespace content is observed (same class names, different relations); http OPL locations that differ in path / query (process-wide document cache). Watcher ERROR events are letters of the alphabets.",
     note="File-system notification (watcherx/fsnotify) is replaced by the dispatcher; for OPL targets 'eventually' is judged only when the last version of every file is valid (one bad file blocks all updates by design).",
     technique="stateless model checking: exhaustive event-history enumeration x deviation-bounded schedule exploration of the instrumented implementation",
     design_ref="§4 C19")
@@ -97,7 +97,7 @@ CLAIMED["C13"] = dict(
     design_ref="§4 C13")
 CLAIMED["C16"] = dict(
     category="exploration", engine="enum",
-    text="182 adversarial strings (empty, separators, escapes, NFC/NFD, RTL, emoji, 4-byte runes, 10 kB, case / trailing-space / ZWJ twins): all 33k ordered pairs for injectivity of the string<->UUID mapping; batches of sizes around 1, 50, 100, 150, 200, 250 (thorough 1..260, 301, 400, 401) x 5 duplicate patterns x {subject id, subject set, mixed} through Mapper.FromTuple->ToTuple, FromQuery->ToQuery (16 shapes) and ToTree, position-wise; end-to-end write -> list / expand / check over REST and gRPC; the reverse-lookup paging loop with explicit page sizes 1..5 x 0..12 ids and 99..201 ids at page sizes 7/50/99/100/101 (through an added, non-replacing method in the persister package). Write-chunk boundaries: batches of 14999 / 15000 / 15001 / 30001 never-seen names (and 29999..30002 with every name twice; tuple batches of 2999..3001 and 7499..7501 tuples) through the same round trips - the insert of new mappings is chunked by 15000 rows. One failing statement (every statement in turn) in reverse lookups of 150 / 250 ids (several lookup pages): an error or the right names. Every reverse lookup is repeated: the second answer must equal the first. The Location header of every create answer is decoded back to the relationship.",
+    text="182 adversarial strings (empty, separators, escapes, NFC/NFD, RTL, emoji, 4-byte runes, 10 kB, case / trailing-space / ZWJ twins): all 33k ordered pairs for injectivity of the string<->UUID mapping; batches of sizes around 1, 50, 100, 150, 200, 250 (thorough 1..260, 301, 400, 401) x 5 duplicate patterns x {subject id, subject set, mixed} through Mapper.FromTuple->ToTuple, FromQuery->ToQuery (16 shapes) and ToTree, position-wise; end-to-end write -> list / expand / check over REST and gRPC; the reverse-lookup paging loop with explicit page sizes 1..5 x 0..12 ids and 99..201 ids at page sizes 7/50/99/100/101 (through an added, non-replacing method in the persister package). Write-chunk boundaries: batches of 14999 / 15000 / 15001 / 30001 never-seen names (and 29999..30002 with every name twice; tuple batches of 2999..3001 and 7499..7501 tuples) through the same round trips - the insert of new mappings is chunked by 15000 rows. One failing statement (every statement in turn) in reverse lookups of 150 / 250 ids (several lookup pages): an error or the right names. Every reverse lookup is repeated: the second answer must equal the first. The Location header of every create answer is decoded back to the relationship. Candidates are confirmed on a fresh server or, failing that, on a long-lived worker server (history-dependent defects).",
     note="Which id falls on the page boundary at the production page size depends on Go map iteration order and is not controlled (stated in evidence); UUIDv5 collision freedom is taken as given.",
     technique="bounded-exhaustive enumeration of names and batch shapes against round-trip / injectivity oracles",
     design_ref="§4 C16")
